@@ -105,7 +105,7 @@ let panic_detail = function
 let fault_name = function
   | FOverRead -> "OverRead" | FGlUnderflow -> "GrowthLeftUnderflow" | FItemsUnderflow -> "IterItemsUnderflow"
   | FDupKey -> "DuplicateKey" | FVacant -> "VacantBucket" | FGrowLoop -> "GrowLoop" | FOracle -> "OracleInfeasible"
-  | FStranded -> "Stranded" | FBadOp -> "BadOp"
+  | FStranded -> "Stranded" | FBadOp -> "BadOp" | FUnreachable -> "UnreachableUnchecked"
 let str_triples l = String.concat " " (List.map (fun ((k, kid), v) -> string_of_n k ^ " " ^ string_of_n kid ^ " " ^ string_of_n v) l)
 let rec str_out = function
   | OutU -> "U"
